@@ -8,6 +8,12 @@ CLAIMED = {
     'C07': ('exploration', 'reference-model monitor: Go-API and compiled-source results vs CPython exact ints over a boundary lattice in both internal representations',
             'Every int operator is executed on the real py package for all pairs of a boundary lattice (and 3-arg pow triples, shifts, text conversions, random 1..192-bit operands), each operand in machine-word and big representation, and compared with exact integers; held = held on the enumerated operand space only.',
             'Trusts CPython 3.11 integer arithmetic as the definition of the exact result; lattice and random tail bound the operand space.', '6/C07'),
+    'C09': ('exploration', 'controlled-scheduler interleaving enumeration at lifecycle yield points (hook H1) with an online trace checker, porcupine linearizability check against a latch model, goroutine-state deadlock detection, and race-detector stress',
+            'All interleavings (at yield-point granularity, exhaustive for 2-goroutine scenarios, preemption-bounded for 3) of RunCode/ModuleInit/ResolveAndCompile/Close/Done-wait are executed on the real context; each execution is judged by ordering/exactly-once rules over a logical-clock event log and by porcupine; free-running rounds run under -race.',
+            'Granularity = H1 yield points (code between two points is atomic under the scheduler); blocked-detection by stack sampling; >3 goroutines only in free-running stress.', '6/C09'),
+    'C12': ('exploration', 'emitted-artifact invariant monitor (bytecode verifier by abstract interpretation over all static paths) plus dynamic stack/block-depth conformance at every executed instruction via hook H2',
+            'Every code object compiled from the corpus (all repository .py files, seeded structurally rich generated programs, block stressors) is verified on all static paths against the VM semantics, and every executed instruction is compared with the predicted depth set; held = on those code objects and executions.',
+            'The verifier is a model of vm/eval.go written by hand; the dynamic monitor cross-validates it. Corpus-bounded.', '6/C12'),
 }
 
 PENDING_REASON = 'check not built yet in this round (the design in DESIGN.md applies; nothing is claimed until the monitor exists and is silent on the unchanged tree)'
